@@ -1,7 +1,6 @@
 package main
 
 import (
-	"runtime/debug"
 	"bytes"
 	"fmt"
 	"go/ast"
@@ -13,6 +12,7 @@ import (
 	"math/big"
 	"os"
 	"path/filepath"
+	"runtime/debug"
 	"sort"
 	"strings"
 
